@@ -935,6 +935,10 @@ class sptensor:
         ):
             assert False, "Inner product must be between tensors of the same shape"
 
+        assert isinstance(
+            other, (ttb.sptensor, ttb.tensor, ttb.ktensor, ttb.ttensor)
+        ), f"Inner product between sptensor and {type(other)} not supported"
+
         # If all entries are zero innerproduct must be 0
         if self.nnz == 0:
             return 0
